@@ -64,7 +64,7 @@ pub struct Sc {
 
 pub fn runs_for(_prop: &str, tier: Tier) -> u64 {
     match tier {
-        Tier::Quick => 6144,
+        Tier::Quick => 16384,
         Tier::Thorough => 65536,
     }
 }
@@ -429,7 +429,13 @@ fn deliver_gated(l: &mut Local, env: &SEnv, tenv: &TypeEnv, wire: &[SType], expe
             if e.starts_with("panic:") {
                 l.v("decode-no-panic", format!("{key}@{}", panic_key(&e)), format!("{what}: decoding panicked: {e}"));
             } else {
-                let key = if mentions_uninhabited_record_in_reference(env, wire.iter().chain(expect.iter())) { KNOWN_CLASS_MU_RECORD.to_string() } else { key };
+                let key = if mentions_uninhabited_record_in_reference(env, wire.iter().chain(expect.iter())) {
+                    KNOWN_CLASS_MU_RECORD.to_string()
+                } else if e.contains("Recursion limit exceeded") && expect.iter().any(|t| reaches_mu_opt(env, t)) {
+                    KNOWN_CLASS_MU_OPT.to_string()
+                } else {
+                    key
+                };
                 l.v(
                     "accepted-subtype-decodes-untyped",
                     key,
@@ -463,6 +469,57 @@ fn deliver_gated(l: &mut Local, env: &SEnv, tenv: &TypeEnv, wire: &[SType], expe
 /// called from Header::to_types); in the *argument* position of a reference type the
 /// rewritten wire signature is then no longer a subtype of the original one.
 pub const KNOWN_CLASS_MU_RECORD: &str = "callsite=binary_parser::Header::to_types/replace_empty:reference-signature-mentions-uninhabited-record";
+
+/// Class key of a recorded finding: an expected option type that unfolds to itself
+/// (`type T = opt T`) against a non-optional wire value: the decoder tries the constituent type,
+/// which is the same option type again, until its recursion guard turns that into a hard error
+/// instead of `null`.
+pub const KNOWN_CLASS_MU_OPT: &str = "callsite=de::deserialize_option/(_,Opt):expected-type-is-an-option-that-unfolds-to-itself";
+
+/// Does the type contain an option chain that leads back to a definition it started from?
+pub fn reaches_mu_opt(env: &SEnv, t: &SType) -> bool {
+    fn chain(env: &SEnv, t: &SType, seen: &mut Vec<String>) -> bool {
+        match t {
+            SType::Opt(x) => chain(env, x, seen),
+            SType::Name(n) => {
+                if seen.contains(n) {
+                    return true;
+                }
+                seen.push(n.clone());
+                match env.0.get(n) {
+                    Some(b @ SType::Opt(_)) | Some(b @ SType::Name(_)) => chain(env, b, seen),
+                    _ => false,
+                }
+            }
+            _ => false,
+        }
+    }
+    let mut st = Vec::new();
+    subterms(t, &mut st);
+    let mut names: Vec<String> = Vec::new();
+    for x in &st {
+        if let SType::Name(n) = x {
+            names.push(n.clone());
+        }
+    }
+    // also definitions reachable from t
+    let mut i = 0;
+    while i < names.len() {
+        if let Some(b) = env.0.get(&names[i]) {
+            let mut st2 = Vec::new();
+            subterms(b, &mut st2);
+            for x in st2 {
+                if let SType::Name(n) = x {
+                    if !names.contains(&n) {
+                        names.push(n);
+                    }
+                }
+            }
+        }
+        i += 1;
+    }
+    names.iter().any(|n| chain(env, &SType::Name(n.clone()), &mut Vec::new()))
+}
 
 /// Does some function/service reference type (reached through names) mention a
 /// named record type without inhabitants?
